@@ -25,8 +25,10 @@ def main():
     except ImportError:
         pass
     check.build("fiber")
-    if os.path.exists(os.path.join(ROOT, "tools", "build_thread.sh")):
-        check.build("thread")
+    bins = sorted({json.load(open(p)).get("binary") for p in glob.glob(os.path.join(ROOT, "scen", "*.json"))
+                   if json.load(open(p)).get("kind") == "thread"})
+    for b in bins:
+        check.build("thread", b)
     print("setup: ok")
     return 0
 
